@@ -315,9 +315,11 @@ def rule_pair_talk(P, C):
                 if rv is not None:
                     keys[(rv[1], q[2])] = nkey(q)
     need = [(srcn, "bufferevent.enabled"), (dstn, "bufferevent.enabled"), (dstn, "bufferevent_private.read_suspended")]
-    if any(k not in keys for k in need):
-        r.brk("be_pair_wants_to_talk: expected tests not found (%s)" % sorted(keys))
+    if not keys:
+        r.brk("be_pair_wants_to_talk: no test of enabled / read_suspended found")
         return r
+    for k_ in need:
+        keys.setdefault(k_, ("#unused",) + k_)          # a condition the function does not look at: the truth table below shows what that costs
     for sen in (0, R, W, R | W):
         for den in (0, R, W, R | W):
             for susp in (0, 1, 4):
